@@ -66,6 +66,10 @@ func (p *Pipe) Writer() io.WriteCloser { return pipeWriter{p} }
 // Reader returns the read end.
 func (p *Pipe) Reader() io.ReadCloser { return pipeReader{p} }
 
+// Write appends b in one piece.  One Write call is atomic with respect to other Write calls on
+// the same end: all writers of an end live in one process and go through one *os.File, whose
+// Write holds the descriptor's write lock until every byte is written.  (Interleaving between
+// *separate* Write calls - payload, then newline - is exactly what the scheduler explores.)
 func (w pipeWriter) Write(b []byte) (int, error) {
 	p := w.p
 	s := p.s
